@@ -110,10 +110,32 @@ def coq_audit():
     return bad
 
 
-def gen_constants():
+# generated files that only some properties' theorems depend on: a source change that makes one of
+# them unreadable, or breaks a theorem over it, must not raise an alarm for unrelated properties
+SITE_GENERATORS = {"gen_locks.py": ("C18",), "gen_alloc.py": ("C20",)}
+
+
+def gen_constants(pid=None):
+    """Regenerate coq/Gen/*.v from /repo.  Constants.v always; LockSites.v / AllocSites.v for the
+    properties proved over them (pid=None: all, used by setup)."""
     rc, out = sh([sys.executable, os.path.join(VERIF, "tools", "gen_constants.py")])
-    rc2, out2 = sh([sys.executable, os.path.join(VERIF, "tools", "gen_locks.py")])
-    return (rc or rc2), out + out2
+    for script, pids in SITE_GENERATORS.items():
+        if pid is None or pid in pids:
+            rc2, out2 = sh([sys.executable, os.path.join(VERIF, "tools", script)])
+            rc = rc or rc2
+            out += out2
+    return rc, out
+
+
+def coq_make_property(pid, timeout=3000):
+    """Build what the check of `pid` rests on: every model (the extraction needs them) and
+    Properties/<pid>.vo with its own dependencies -- not the theorems of other properties."""
+    if not os.path.exists(os.path.join(COQ, "Makefile")) or \
+            os.path.getmtime(os.path.join(COQ, "Makefile")) < os.path.getmtime(os.path.join(COQ, "_CoqProject")):
+        sh("coq_makefile -f _CoqProject -o Makefile", cwd=COQ)
+    models = " ".join("Model/" + os.path.basename(p) + "o" for p in sorted(glob.glob(os.path.join(COQ, "Model", "*.v"))))
+    rc, out = sh("timeout %d make -j%d %s Properties/%s.vo 2>&1" % (timeout, NCPU, models, pid), cwd=COQ, timeout=timeout + 30)
+    return rc == 0, out
 
 
 def coq_make(timeout=3000):
